@@ -4,8 +4,8 @@
    correspondence) instantiated with the generated dispatcher gen/Dispatch.v; the decoder
    is a parameter (any function).  Programs, hooks, limits and run lengths are unbounded. *)
 From Coq Require Import ZArith Bool List.
-From AxV Require Import Bits Outcome Codes Iced State Rt Mem Trace Exec ExecP FrameTac FrameP.
-From AxG Require Import Flags Regs Operand Helpers Dispatch Frame.
+From AxV Require Import Bits Outcome Codes Iced State Rt Mem Trace Exec ExecP FrameTac FrameP RegFile RegsP ISA CodeSem StepIsaP.
+From AxG Require Import Flags Regs Operand Helpers Dispatch Frame DispatchEq.
 Local Open Scope Z_scope.
 
 Section C11.
@@ -115,7 +115,48 @@ End C11.
 Theorem C11_instruction_frame : forall c i, framed (switch_instruction_mnemonic c i).
 Proof. exact dispatch_framed. Qed.
 
+(* From the instruction function to the whole step.  When the dispatcher returns Ok, the step returns
+   Ok, the instruction counter has been incremented and the machine is finished exactly when RIP
+   reached the end of the code ([after_step]).  With gen/DispatchEq.v (443 lemmas: the dispatcher on
+   (mnemonic, code) IS the instruction function) every refinement theorem of C01/C02/C04/C06 lifts to
+   the step. *)
+Theorem C11_step_of_ok : forall decode c env s bytes i s1,
+  finished s = false ->
+  (match max_instr s with Some limit => limit <=? icount s | None => false end) = false ->
+  mem_read_executable_bytes (regs s RIP) s = (Ok bytes, s) ->
+  decode (regs s RIP) bytes = Some i ->
+  supported_mnemonic_try_from c (i_mnemonic i) (entered s i) = (Ok (i_mnemonic i), entered s i) ->
+  env (i_mnemonic i) = None ->
+  switch_instruction_mnemonic c i (entered s i) = (Ok tt, s1) ->
+  0 <= icount s1 < 2 ^ 64 - 1 ->
+  Exec.step decode switch_instruction_mnemonic supported_mnemonic_try_from c env s
+  = (Ok (negb (finished (after_step s1))), after_step s1).
+Proof. intros decode c env s bytes i s1 Hf Hl Hb Hd Hs Hn. exact (step_of_ok decode c env s bytes i Hf Hl Hb Hd Hs Hn s1). Qed.
+
+(* ... instantiated once, end to end: one step over ADD r/m64, r64 is the ISA specification's ADD on
+   the state with RIP advanced, then the bookkeeping *)
+Theorem C11_step_add_rm64_r64 : forall decode c env s bytes i,
+  finished s = false ->
+  (match max_instr s with Some limit => limit <=? icount s | None => false end) = false ->
+  mem_read_executable_bytes (regs s RIP) s = (Ok bytes, s) ->
+  decode (regs s RIP) bytes = Some i ->
+  supported_mnemonic_try_from c (i_mnemonic i) (entered s i) = (Ok (i_mnemonic i), entered s i) ->
+  env (i_mnemonic i) = None ->
+  i_mnemonic i = M_Add -> i_code i = C_Add_rm64_r64 ->
+  wf_regs s -> 0 <= i_next_ip i < 2 ^ 64 -> 0 <= rflags s < 2 ^ 64 -> 0 <= icount s < 2 ^ 64 - 1 ->
+  i_op_count i = 2 -> i_op_kind i 0 = OK_Register -> i_op_kind i 1 = OK_Register ->
+  is_gpr64 (i_op_register i 0) = true -> is_gpr64 (i_op_register i 1) = true ->
+  exists s1, isa_exec (SAlu ADD 64) i (entered s i) = IDone s1 0 /\
+             Exec.step decode switch_instruction_mnemonic supported_mnemonic_try_from c env s
+             = (Ok (negb (finished (after_step s1))), after_step s1).
+Proof. exact step_add_rm64_r64. Qed.
+
+Theorem C11_dispatched_forms : length dispatched_forms = 443%nat.
+Proof. reflexivity. Qed.
+
 Print Assumptions C11_one_instruction_per_step.
 Print Assumptions C11_limit_never_exceeded.
 Print Assumptions C11_execute_is_stepping.
 Print Assumptions C11_instruction_frame.
+Print Assumptions C11_step_of_ok.
+Print Assumptions C11_step_add_rm64_r64.
